@@ -76,6 +76,11 @@ class LifeSuite(cx.CtxSuiteBase):
                     for i in range(nf):
                         yield {"prog": top, "ka": ka, "roe": roe, "faults": [False] * i + [True]}
                     yield {"prog": top, "ka": ka, "roe": roe, "faults": [rng.random() < 0.3 for _ in range(12)]}
+                    # the initialisation fault fires in the machine's init() hook (the last step of Machine.__enter__)
+                    for i in range(nf):
+                        if rng.random() < 0.5:
+                            yield {"prog": top, "ka": ka, "roe": roe, "faults": [False] * i + [True], "hook": rng.choice([31, 31, rng.randint(1, 30)])}
+                    yield {"prog": top, "ka": ka, "roe": roe, "faults": [rng.random() < 0.3 for _ in range(12)], "hook": rng.randint(1, 31)}
                     if not ka:
                         yield {"prog": p, "ka": ka, "roe": roe, "faults": [rng.random() < 0.2 for _ in range(8)]}
 
@@ -119,6 +124,10 @@ class LifeSuite(cx.CtxSuiteBase):
                     holders = [k for k in live if cx.TABLE[k] is not None and cx.TABLE[k][0] == c]
                     if not holders:
                         fails.append(f"without keep-alive class {c} instance {live[c]} is still alive after its last request left (event {idx})")
+        for e in log:
+            if e[0] == 97:
+                fails.append(f"class {e[1]}: {e[2]} low-level resource(s) acquired during machine initialisation are still held at the end although "
+                             f"{'no' if e[1] not in live else 'one'} instance of the class is alive (a failed initialisation was not unwound)")
         for k, n in inits.items():
             if downs.get(k, 0) != 1:
                 fails.append(f"class {k[0]} instance {k[1]} was initialised but torn down {downs.get(k, 0)} times")
